@@ -338,7 +338,8 @@ fn cfg_hs(tier: Tier) -> Cfg {
         space: PacketNumberSpace::Handshake,
         confirmed: false,
         max_packets: tier.pick(4, 5),
-        sizes_non_eliciting: &[100],
+        // 100: ACK-only (not in flight); 1200: ACK + PADDING (in flight although not ack-eliciting)
+        sizes_non_eliciting: &[100, 1200],
         ticks_us: tier.pick(&[1_000, 100_000], &[1_000, 12_500, 100_000]),
         delays_us: &[0],
         preset_rtt_us: &[],
@@ -746,7 +747,10 @@ impl Rec {
         // s2n-quic: a packet is congestion controlled iff it carries an ack-eliciting or PADDING
         // frame; the non-eliciting packets of this alphabet are ACK-only packets (RFC 9002 7:
         // "packets containing only ACK frames do not count towards bytes in flight")
-        let cc = eliciting;
+        // ... except the padded ACK-only packet (ACK + PADDING, e.g. a client's Initial ACK padded to
+        // 1200 bytes): not ack-eliciting but congestion controlled. A non-eliciting `size` of 1200
+        // and more stands for it.
+        let cc = eliciting || size >= 1200;
         let outcome = transmission::Outcome {
             ack_elicitation: if eliciting { AckElicitation::Eliciting } else { AckElicitation::NonEliciting },
             is_congestion_controlled: cc,
